@@ -35,6 +35,22 @@ func dkgView(inst *rig.Instance, account string) (*oracle.DKGView, error) {
 	for _, k := range a.(e2wtypes.AccountVerificationVectorProvider).VerificationVector() {
 		v.VVec = append(v.VVec, k.Marshal())
 	}
+	// The private share as stored (this account object comes fresh from the store, locked): it must open with the
+	// passphrase of the generation - every generation here is given "pass", by the client or as the participants'
+	// configured generation passphrase - and sign as SharePub.
+	if l, ok := a.(e2wtypes.AccountLocker); ok {
+		if err := l.Unlock(context.Background(), []byte("pass")); err != nil {
+			v.StoredShareProblem = "the stored share does not open with the generation's passphrase: " + err.Error()
+		} else if sg, ok := a.(e2wtypes.AccountSigner); ok {
+			msg := Root32(0x5a)
+			sig, err := sg.Sign(context.Background(), msg)
+			if err != nil {
+				v.StoredShareProblem = "the stored share cannot sign: " + err.Error()
+			} else if okv, _ := oracle.VerifySig(v.SharePub, msg, sig.Marshal()); !okv {
+				v.StoredShareProblem = "the stored share signs as a key other than the account's public key"
+			}
+		}
+	}
 	return v, nil
 }
 
